@@ -68,15 +68,16 @@ Section C14.
 
   Theorem C14_pull_opens_at_current : forall (s : sstate M rmask) name k uo,
     step s (QPull name k uo) =
-    (mkSS (ss_v s) (ss_streams s ++ [mkSt name (mkR k uo None) (routed name) (live (v_val (ss_v s))) (ss_v s) [] true]), POpened) /\
+    (mkSS (ss_v s) (ss_streams s ++ [mkSt name (mkR k uo None) (routed name) (live (v_val (ss_v s))) (ss_v s) [] true true]), POpened) /\
     (routed name = true -> live (v_val (ss_v s)) = true ->
-     handler_sent (mkSt name (mkR k uo None) (routed name) (live (v_val (ss_v s))) (ss_v s) [] true) =
+     handler_sent (mkSt name (mkR k uo None) (routed name) (live (v_val (ss_v s))) (ss_v s) [] true true) =
      if uo then [] else match v_val (ss_v s) with
                         | Some v => [(name, match k with Some m => r_filter m v | None => v end)]
                         | None => [] end).
   Proof. intros. apply pull_opens_at_current. Qed.
 
-  (* (4) a successful Update reaches every stream: an open, served stream gets exactly one more
+  (* (4) a successful Update reaches every stream whose reader keeps up: an open, served stream that has
+     not stalled gets exactly one more
      message -- the response's value, filtered, under the Pull request's name -- unless that value is
      equivalent (configured equivalence) to the last message the stream delivered; every other stream
      is left as it was; no stream is added, removed or ended *)
@@ -87,7 +88,7 @@ Section C14.
       exists st1, nth_error (ss_streams s1) i = Some st1 /\
         st_name st1 = st_name st /\ stream_status st1 = stream_status st /\
         handler_sent st1 = handler_sent st ++
-          (if st_open st && served st &&
+          (if st_open st && st_reading st && served st &&
               negb (suppressed equiv (last_value (handler_sent st)) (filt r_filter (st_ro st) r))
            then [(st_name st, filt r_filter (st_ro st) r)] else []).
   Proof. intros. eapply every_effective_update_streamed; eauto. Qed.
@@ -104,8 +105,21 @@ Section C14.
   Theorem C14_rejected_update_noop : forall (s s1 : sstate M rmask) name q c,
     step s (QUpdate name q) = (s1, PUpdate (inr c)) -> s1 = s.
   Proof. intros. eapply rejected_update_noop; eauto. Qed.
+
+  (* "whose reader keeps up": a stream whose reader has stopped receiving (QStall) is owed nothing more,
+     and it holds nobody back -- for EVERY later history the responses (Updates included: none is
+     rejected or delayed on its account), the register and every other stream are exactly what they
+     would have been had the reader kept receiving.  (The code: Value.onUpdate puts minibus.DropExcess
+     between the bus and each subscriber that did not ask for back-pressure.) *)
+  Theorem C14_stalled_reader_holds_nobody_back : forall (s : sstate M rmask) i qs,
+    let stalled := mkSS (ss_v s) (stall_at i (ss_streams s)) in
+    snd (run stalled qs) = snd (run s qs) /\
+    ss_v (fst (run stalled qs)) = ss_v (fst (run s qs)) /\
+    forall j, j <> i -> nth_error (ss_streams (fst (run stalled qs))) j = nth_error (ss_streams (fst (run s qs))) j.
+  Proof. intros. apply stalled_reader_holds_nobody_back. Qed.
 End C14.
 
+Print Assumptions C14_stalled_reader_holds_nobody_back.
 Print Assumptions C14_update_then_get.
 Print Assumptions C14_get_mask_is_projection.
 Print Assumptions C14_pull_starts_with_current.
@@ -326,4 +340,22 @@ Example C14_nonvacuous_history :
   map (fun e => match e with TGet _ _ r => Some r | _ => None end) (t_evs t) =
     [None; None; None; None; Some (inl (Some 27)); Some (inr 5); None; None; Some (inl (Some 2))] /\
   trace_ok Z.eqb (fun (k : Z) (x : Z) => (x mod k)%Z) (Some (option_eqb Z.eqb)) ["dev"; "dev2"] t = true.
+Proof. vm_compute. repeat split; reflexivity. Qed.
+
+(* ---- stalled readers: stream 1 (updates only) stops receiving after its first message; the other
+   stream and every Update go on as if nothing had happened; the model's trace is accepted.  The
+   shape of C14-r4-2 -- with a stalled updates-only stream open, an Update is answered with an error
+   (2, after blocking in bus.Send) although the next Get shows its value -- is rejected by the property
+   predicate: "an Update rejected with any error status leaves Get unchanged". ---- *)
+Example C14_stalled_reader_nonvacuous :
+  let rule := fun (b : option Z) (q : Z) => if (q <? 0)%Z then inr 3 else inl q : Z + Z in
+  let qs := [QPull "dev" None false; QPull "dev2" None true; QUpdate "dev" 1; QStall 1%nat;
+             QUpdate "dev" 2; QUpdate "dev" (-1); QUpdate "dev" 3; QGet "dev" None; QCancel 1%nat; QUpdate "dev" 4] in
+  let t := trace_of_run Z.eqb 0 (fun (k : Z) (x : Z) => x) None (fun n => n) rule ["dev"; "dev2"] (Some 0) qs in
+  t_streams t = [([("dev", 0); ("dev", 1); ("dev", 2); ("dev", 3); ("dev", 4)], None); ([("dev2", 1)], Some 1)] /\
+  trace_ok Z.eqb (fun (k : Z) (x : Z) => x) None ["dev"; "dev2"] t = true /\
+  trace_ok Z.eqb (fun (k : Z) (x : Z) => x) None ["dev"; "dev2"]
+    (mkTrace (Some 0)
+       [TOpen "dev2" None true; TStall 0%nat; TUpdate "dev" (inl 1); TUpdate "dev" (inr 2); TGet "dev" None (inl (Some 2))]
+       [([], None)]) = false.
 Proof. vm_compute. repeat split; reflexivity. Qed.
